@@ -137,6 +137,31 @@ pub fn check(ctx: &mut Ctx) {
             }
             stages.push(s);
         }
+        // one case in eight has the shape `agg | limit N | … | sort`: the limit must cut the table
+        // in its implicit order whatever comes later (an explicit sort further down does not
+        // replace the implicit one in front of the limit)
+        if r.chance(12) {
+            let of_kind = |r: &mut Rng, k: Kind, after_table: bool| -> (String, Kind) {
+                for _ in 0..200 {
+                    let s = stage(r, after_table);
+                    if s.1 == k {
+                        return s;
+                    }
+                }
+                stage(r, after_table)
+            };
+            let mut t: Vec<(String, Kind)> = vec![];
+            if r.chance(40) {
+                t.push(of_kind(&mut r, Kind::Row, false));
+            }
+            t.push(of_kind(&mut r, Kind::Agg, false));
+            t.push((format!("limit {}", if r.chance(70) { r.range(1, 4) } else { -r.range(1, 4) }), Kind::Limit));
+            if r.chance(40) {
+                t.push((r.pick(&["where 1 == 1", "fields except nosuch", "total(_count) as t"]).to_string(), if r.chance(50) { Kind::Row } else { Kind::Row }));
+            }
+            t.push(of_kind(&mut r, Kind::Sort, true));
+            stages = t;
+        }
         if stages.len() < 2 {
             continue;
         }
